@@ -11,10 +11,10 @@ Lemma upd_length {A} (l : list A) : forall i x, List.length (upd l i x) = List.l
 Proof. induction l as [|y r IH]; intros [|i] x; cbn; auto. Qed.
 Lemma nth_error_upd_other {A} (l : list A) : forall i j x, i <> j -> nth_error (upd l i x) j = nth_error l j.
 Proof.
-  induction l as [|y r IH]; intros [|i] [|j] x H; cbn; auto; try congruence. apply IH. lia.
+  induction l as [|y r IH]; intros [|i] [|j] x H; cbn; auto; try congruence; try (apply IH; lia).
 Qed.
 Lemma nth_error_upd_same {A} (l : list A) : forall i x, i < List.length l -> nth_error (upd l i x) i = Some x.
-Proof. induction l as [|y r IH]; intros [|i] x H; cbn in *; try lia; auto. apply IH. lia. Qed.
+Proof. induction l as [|y r IH]; intros [|i] x H; cbn in *; try lia; auto; try (apply IH; lia). Qed.
 
 (* ---------- frames *)
 Lemma frame_refl n h : frame n h h.
@@ -55,11 +55,11 @@ Proof.
   - unfold h_new_object, alloc. cbn [fst]. split.
     + intros l H. unfold cell_at. apply nth_error_app1. exact H.
     + rewrite app_length. cbn. lia.
-  - split; [apply frame_refl | lia].
-  - split; [apply frame_refl | lia].
+  - cbn. split; [apply frame_refl | lia].
+  - cbn. split; [apply frame_refl | lia].
   - destruct (h_slice h (aloc (rget rs a)) from to) as [h' s] eqn:E. cbn [fst].
     pose proof (slice_frame h (aloc (rget rs a)) from to) as H. rewrite E in H. exact H.
-  - split; [apply frame_refl | lia].
+  - cbn. split; [apply frame_refl | lia].
 Qed.
 Theorem readonly_fragment_preserves p : forall st,
   forallb (fun i => negb (is_mutator i)) p = true ->
@@ -67,18 +67,24 @@ Theorem readonly_fragment_preserves p : forall st,
   List.length (fst st) <= List.length (fst (run p st)).
 Proof.
   unfold run. induction p as [|i r IH]; intros st H; cbn [fold_left].
-  - split; [apply frame_refl | lia].
+  - split; [apply frame_refl | apply Nat.le_refl].
   - cbn [forallb] in H. apply andb_prop in H as [Hi Hr]. apply Bool.negb_true_iff in Hi.
     destruct (exec_readonly i st Hi) as [F1 L1]. destruct (IH (exec i st) Hr) as [F2 L2]. split.
     + eapply frame_trans; [exact F1|]. eapply frame_mono; [exact L1 | exact F2].
-    + lia.
+    + eapply Nat.le_trans; eauto.
 Qed.
 
 (* ---------- unchanged cells give unchanged deep values *)
-Lemma Forall_firstn {A} (P : A -> Prop) n (l : list A) : Forall P l -> Forall P (firstn n l).
-Proof. intros H. rewrite Forall_forall in *. intros x Hx. apply H. eapply firstn_In; eauto. Qed.
-Lemma Forall_skipn {A} (P : A -> Prop) n (l : list A) : Forall P l -> Forall P (skipn n l).
-Proof. intros H. rewrite Forall_forall in *. intros x Hx. apply H. eapply skipn_In; eauto. Qed.
+Lemma Forall_firstn {A} (P : A -> Prop) n : forall (l : list A), Forall P l -> Forall P (firstn n l).
+Proof.
+  induction n as [|n IH]; intros l H; [constructor|]. destruct l as [|x r]; [constructor|].
+  inversion H; subst. cbn. constructor; auto.
+Qed.
+Lemma Forall_skipn {A} (P : A -> Prop) n : forall (l : list A), Forall P l -> Forall P (skipn n l).
+Proof.
+  induction n as [|n IH]; intros l H; [exact H|]. destruct l as [|x r]; [constructor|].
+  inversion H; subst. cbn. auto.
+Qed.
 
 Lemma arr_items_frame n h h' a : closed n h -> frame n h h' -> a < n ->
   arr_items h' a = arr_items h a /\ Forall (ref_below n) (arr_items h a).
@@ -106,6 +112,15 @@ Proof.
     apply map_ext_in. intros x Hx. apply IH. rewrite Forall_forall in Hall. now apply Hall.
   - cbn in Hr. destruct (obj_members_frame n h h' o C F Hr) as [E Hall]. rewrite E. f_equal.
     apply map_ext_in. intros kv Hx. f_equal. apply IH. rewrite Forall_forall in Hall. now apply Hall.
+Qed.
+
+Corollary readonly_values p h rs fuel r :
+  forallb (fun i => negb (is_mutator i)) p = true ->
+  closed (List.length h) h -> ref_below (List.length h) r ->
+  deep fuel (fst (run p (h, rs))) r = deep fuel h r.
+Proof.
+  intros Hp C Hr. apply (deep_frame (List.length h)); auto.
+  exact (proj1 (readonly_fragment_preserves p (h, rs) Hp)).
 Qed.
 
 (* ---------- pushing into an array whose struct and backing array are new *)
